@@ -4,6 +4,7 @@ import (
 	"bytes"
 	"encoding/json"
 	"fmt"
+	"sort"
 	"time"
 
 	abci "github.com/cometbft/cometbft/abci/types"
@@ -494,6 +495,21 @@ func c06History(c *vc.Ctx, idx int) {
 		c.Eval(1)
 		if m.delivered[kind] < len(o) {
 			b.viol("owed item never handed over: "+kind, fmt.Sprintf("%d of %d delivered after the drain phase; first missing %s (owed at height %d)", m.delivered[kind], len(o), o[m.delivered[kind]].Key, o[m.delivered[kind]].H))
+		}
+	}
+	// every unlock request that was applied must have come out by now: nothing is maturing any more, so one that never
+	// even reached the delivery queue was dropped on the way (C15 judges the timing, this is the 'never dropped' clause)
+	if len(lh.post.Locking.UnlockQueue) == 0 && !lh.failed {
+		var lost []uint64
+		for id, u := range lh.unlocks {
+			if u.Applied && u.Delivered == 0 {
+				lost = append(lost, id)
+			}
+		}
+		sort.Slice(lost, func(i, j int) bool { return lost[i] < lost[j] })
+		c.Eval(1)
+		if len(lost) > 0 {
+			b.viol("owed item never handed over: unlock lost before the delivery queue", fmt.Sprintf("%d applied unlock requests never handed over although nothing is maturing any more: ids %v", len(lost), lost[:min(len(lost), 10)]))
 		}
 	}
 	// stored hashes of all voted heights are what was voted (never rewritten)
